@@ -252,44 +252,107 @@ Proof.
   apply keys_nonneg_app in K. apply K.
 Qed.
 
+(* ------------------------------------------------------------------ prefixes, slices and sortedness *)
+Lemma firstn_skipn_comm' {A} : forall n m (l : list A), firstn m (skipn n l) = skipn n (firstn (n + m) l).
+Proof.
+  induction n as [|n IH]; intros m l; simpl; [reflexivity|]. destruct l as [|x l]; simpl; [apply firstn_nil|apply IH].
+Qed.
+
+Lemma slice_skipn_firstn {A} (b : list A) lo up : 0 <= lo <= up ->
+  slice b lo up = skipn (Z.to_nat lo) (firstn (Z.to_nat up) b).
+Proof.
+  intros H. unfold slice. rewrite firstn_skipn_comm'. f_equal. f_equal. lia.
+Qed.
+
+Lemma firstn_firstn_le {A} : forall a L (b : list A), (a <= L)%nat -> firstn a (firstn L b) = firstn a b.
+Proof.
+  induction a as [|a IH]; intros L b H; [reflexivity|].
+  destruct L as [|L]; [lia|]. destruct b as [|x b]; [reflexivity|]. simpl. f_equal. apply IH. lia.
+Qed.
+
+Lemma prefix_eq_le {A} (b b' : list A) a L : (a <= L)%nat -> firstn L b = firstn L b' -> firstn a b = firstn a b'.
+Proof.
+  intros H E. rewrite <- (firstn_firstn_le a L b H), <- (firstn_firstn_le a L b' H), E. reflexivity.
+Qed.
+
+Lemma slice_prefix_eq {A} (b b' : list A) a e L : 0 <= a -> e <= L ->
+  firstn (Z.to_nat L) b = firstn (Z.to_nat L) b' -> slice b a e = slice b' a e.
+Proof.
+  intros Ha He E. destruct (Z_lt_le_dec e a).
+  - unfold slice. replace (Z.to_nat (e - a)) with 0%nat by lia. reflexivity.
+  - rewrite !slice_skipn_firstn by lia. f_equal. apply (prefix_eq_le b b' _ (Z.to_nat L)); [lia|exact E].
+Qed.
+
+Lemma firstn_upd {A} : forall n (l : list A) v, firstn n (upd l n v) = firstn n l.
+Proof.
+  induction n as [|n IH]; intros l v; [reflexivity|]. destruct l as [|x l]; [reflexivity|]. simpl. f_equal. apply IH.
+Qed.
+
+Lemma ssorted_nil : ssorted [].
+Proof. constructor. Qed.
+
+Lemma slice_empty {A} (b : list A) a : slice b a a = [].
+Proof. unfold slice. rewrite Z.sub_diag. reflexivity. Qed.
+
+Lemma chain_le m a d : chain_from m a d -> forall j, a <= j <= d -> Z.abs (nthZ m j) <= Z.abs (nthZ m a).
+Proof.
+  intros H j Hj. assert (G : forall n, (a + Z.of_nat n <= d) -> Z.abs (nthZ m (a + Z.of_nat n)) <= Z.abs (nthZ m a)).
+  { induction n as [|n IH]; intros Hn.
+    - rewrite Z.add_0_r. lia.
+    - specialize (IH ltac:(lia)). specialize (H (a + Z.of_nat n) ltac:(lia)).
+      replace (a + Z.of_nat (S n)) with (a + Z.of_nat n + 1) by lia. lia. }
+  specialize (G (Z.to_nat (j - a))). replace (a + Z.of_nat (Z.to_nat (j - a))) with j in G by lia. apply G. lia.
+Qed.
+
 (* ------------------------------------------------------------------ msd_loop *)
+Definition run_at (c : coo) (j : Z) : list entry :=
+  slice (buf c) (Z.abs (nthZ (mn c) (j + 1))) (Z.abs (nthZ (mn c) j)).
+
 Lemma msd_loop_ok : forall n i c,
   i = depth c - Z.of_nat n -> 0 <= i ->
   depth c < zlen (mn c) ->
   chain_from (mn c) i (depth c) ->
   Z.abs (nthZ (mn c) i) <= ind c -> ind c <= cap c ->
   keys_nonneg (live c) ->
-  exists c' nd,
+  (forall j, i <= j < depth c -> ssorted (run_at c j)) ->
+  ssorted (slice (buf c) (Z.abs (nthZ (mn c) i)) (ind c)) ->
+  exists c' nd e,
     msd_loop n i c = Ok (c', nd) /\
     cap c' = cap c /\ depth c' = depth c /\ zlen (mn c') = zlen (mn c) /\ 0 <= ind c' <= ind c /\
     (forall k, sumby (live c') k = sumby (live c) k) /\ keys_nonneg (live c') /\
-    (nd = true -> mn c' = mn c /\ forall j, i <= j < depth c -> nthZ (mn c) j > 0) /\
-    (nd = false -> exists i', i <= i' < depth c /\ (forall j, i <= j < i' -> nthZ (mn c) j > 0) /\
-                   nthZ (mn c) i' <= 0 /\ Z.abs (nthZ (mn c) i') <= ind c' /\
-                   mn c' = upd (fill_prefix (mn c) i' (- ind c')) (Z.to_nat i') (ind c')).
+    (nd = true -> e = depth c /\ mn c' = mn c) /\
+    (nd = false -> e < depth c /\ nthZ (mn c) e <= 0 /\
+                   mn c' = upd (fill_prefix (mn c) e (- ind c')) (Z.to_nat e) (ind c')) /\
+    i <= e <= depth c /\ (forall j, i <= j < e -> nthZ (mn c) j > 0) /\
+    Z.abs (nthZ (mn c) e) <= ind c' /\
+    ssorted (slice (buf c') (Z.abs (nthZ (mn c) e)) (ind c')) /\
+    firstn (Z.to_nat (Z.abs (nthZ (mn c) e))) (buf c') = firstn (Z.to_nat (Z.abs (nthZ (mn c) e))) (buf c).
 Proof.
-  induction n as [|n IH]; intros i c Hi Hi0 Hd Hch Hmi Huc Hk.
-  - simpl. exists c, true. split; [reflexivity|].
+  induction n as [|n IH]; intros i c Hi Hi0 Hd Hch Hmi Huc Hk Hruns Hnew.
+  - simpl. exists c, true, i.
     pose proof (Z.abs_nonneg (nthZ (mn c) i)).
-    repeat split; auto; try lia; try (intros; lia); try discriminate.
+    split; [reflexivity|]. split; [reflexivity|]. split; [reflexivity|]. split; [reflexivity|].
+    split; [lia|]. split; [reflexivity|]. split; [exact Hk|]. split; [intros _; split; [lia|reflexivity]|].
+    split; [discriminate|]. split; [lia|]. split; [intros; lia|]. split; [exact Hmi|]. split; [exact Hnew|reflexivity].
   - simpl msd_loop. assert (Hid : i < depth c) by lia.
     rewrite (getZ_nthZ _ (mn c) i) by lia. simpl bind.
     pose proof (Z.abs_nonneg (nthZ (mn c) i)) as Habs.
     destruct (nthZ (mn c) i <=? 0) eqn:E.
     + apply Z.leb_le in E.
       rewrite setZ_ok by (rewrite zlen_fill_prefix; lia). simpl bind.
-      exists (set_mn c (upd (fill_prefix (mn c) i (- ind c)) (Z.to_nat i) (ind c))), false.
+      exists (set_mn c (upd (fill_prefix (mn c) i (- ind c)) (Z.to_nat i) (ind c))), false, i.
       split; [reflexivity|]. unfold set_mn, cap, live; simpl.
       split; [reflexivity|]. split; [reflexivity|].
       split; [rewrite zlen_upd, zlen_fill_prefix; reflexivity|].
       split; [lia|]. split; [reflexivity|]. split; [exact Hk|]. split; [discriminate|].
-      intros _. exists i. split; [lia|]. split; [intros; lia|]. split; [exact E|]. split; [exact Hmi|].
-      reflexivity.
+      split; [intros _; split; [lia|split; [exact E|reflexivity]]|].
+      split; [lia|]. split; [intros; lia|]. split; [exact Hmi|]. split; [exact Hnew|reflexivity].
     + apply Z.leb_gt in E.
       set (mid := nthZ (mn c) i) in *. set (lo := Z.abs (nthZ (mn c) (i + 1))).
       assert (Hlm : lo <= mid) by (specialize (Hch i ltac:(lia)); unfold lo; lia).
       assert (Hmu : mid <= ind c) by lia.
       assert (Hlo0 : 0 <= lo) by apply Z.abs_nonneg.
+      assert (Hmid : Z.abs mid = mid) by lia.
       destruct (merge_level_ok c i lo mid) as (c1 & f & M1 & M2 & M3 & M4 & M5 & M6 & M7);
         auto; try lia.
       { apply live_slice_nonneg; [lia|exact Hk]. }
@@ -305,7 +368,20 @@ Proof.
       { rewrite M6. apply keys_nonneg_app. split; [apply live_prefix_nonneg; [lia|exact Hk]|].
         apply keys_nonneg_rlc. eapply keys_nonneg_perm; [apply interleave_perm|].
         unfold A, B. rewrite <- seg_split by (unfold cap in *; lia). apply live_slice_nonneg; [lia|exact Hk]. }
-      destruct (IH (i + 1) c1) as (c' & nd & L1 & L2 & L3 & L4 & L5 & L6 & L7 & L8 & L9).
+      (* the prefix below lo is untouched, the region [lo, ind c1) is the merged run *)
+      assert (LP : zlen (firstn (Z.to_nat lo) (buf c)) = lo) by (apply zlen_firstn; unfold cap in *; lia).
+      assert (Hpre : firstn (Z.to_nat lo) (buf c1) = firstn (Z.to_nat lo) (buf c)).
+      { rewrite <- (firstn_firstn_le (Z.to_nat lo) (Z.to_nat (ind c1)) (buf c1)) by lia.
+        fold (live c1). rewrite M6. apply firstnZ_app. symmetry; exact LP. }
+      assert (Hrun : slice (buf c1) lo (ind c1) = rlc (interleave f A B)).
+      { rewrite slice_skipn_firstn by lia. fold (live c1). rewrite M6. apply skipnZ_app. symmetry; exact LP. }
+      assert (SA : ssorted A).
+      { specialize (Hruns i ltac:(lia)). unfold run_at in Hruns. fold lo in Hruns. fold mid in Hruns.
+        rewrite Hmid in Hruns. exact Hruns. }
+      assert (SB : ssorted B) by (unfold B; rewrite <- Hmid; exact Hnew).
+      assert (SM : ssorted (rlc (interleave f A B))).
+      { apply rlc_sorted, interleave_wsorted; [exact M7|apply ssorted_wsorted, SA|apply ssorted_wsorted, SB]. }
+      destruct (IH (i + 1) c1) as (c' & nd & e & L1 & L2 & L3 & L4 & L5 & L6 & L7 & L8 & L9 & L10 & L11 & L12 & L13 & L14).
       * rewrite M3. lia.
       * lia.
       * rewrite M2, M3. exact Hd.
@@ -313,14 +389,20 @@ Proof.
       * rewrite M2. fold lo. lia.
       * rewrite M4. lia.
       * exact Hk1.
-      * exists c', nd. split; [exact L1|]. rewrite M2, M3, M4 in *.
-        repeat split; auto; try lia.
-        -- intros k. rewrite L6. apply Hsum.
-        -- apply L8, H.
-        -- intros j Hj. destruct (Z.eq_dec j i) as [->|]; [fold mid; lia|]. apply L8; [exact H|lia].
-        -- intros Hnd. destruct (L9 Hnd) as (i' & I1 & I2 & I3 & I4 & I5).
-           exists i'. repeat split; auto; try lia.
-           intros j Hj. destruct (Z.eq_dec j i) as [->|]; [fold mid; lia|]. apply I2. lia.
+      * rewrite M3. intros j Hj. unfold run_at. rewrite M2.
+        assert (Z.abs (nthZ (mn c) j) <= lo).
+        { unfold lo. apply (chain_le (mn c) (i + 1) (depth c)); [intros q Hq; apply Hch; lia|lia]. }
+        rewrite (slice_prefix_eq (buf c1) (buf c) _ _ lo); [apply Hruns; lia|apply Z.abs_nonneg|lia|exact Hpre].
+      * rewrite M2. fold lo. rewrite Hrun. exact SM.
+      * rewrite M2, M3, M4 in *. exists c', nd, e.
+        assert (Hele : Z.abs (nthZ (mn c) e) <= lo).
+        { unfold lo. apply (chain_le (mn c) (i + 1) (depth c)); [intros q Hq; apply Hch; lia|lia]. }
+        split; [exact L1|]. split; [exact L2|]. split; [exact L3|]. split; [exact L4|]. split; [lia|].
+        split; [intros k; rewrite L6; apply Hsum|]. split; [exact L7|]. split; [exact L8|]. split; [exact L9|].
+        split; [lia|].
+        split; [intros j Hj; destruct (Z.eq_dec j i) as [->|]; [fold mid; lia|apply L11; lia]|].
+        split; [exact L12|]. split; [exact L13|].
+        rewrite L14. apply (prefix_eq_le _ _ _ (Z.to_nat lo)); [lia|exact Hpre].
 Qed.
 
 (* ------------------------------------------------------------------ merge_sum_duplicates *)
@@ -391,120 +473,149 @@ Record stack_ok (c : coo) : Prop := {
   so_zeros : zeros_above (mn c) (depth c);
   so_chain : chain_from (mn c) 0 (depth c);
   so_ind   : Z.abs (nthZ (mn c) 0) <= ind c;
-  so_keys  : keys_nonneg (live c) }.
+  so_keys  : keys_nonneg (live c);
+  (* a free level has an empty run: its (non-positive) entry is minus the end of the nearest occupied level above *)
+  so_free  : forall j, 0 <= j < depth c -> nthZ (mn c) j <= 0 -> Z.abs (nthZ (mn c) (j + 1)) = Z.abs (nthZ (mn c) j);
+  (* the run of every level is strictly sorted by key *)
+  so_runs  : forall j, 0 <= j < depth c -> ssorted (run_at c j) }.
+
+Ltac andb_t := symmetry; apply andb_true_iff; split; [apply Z.leb_le|apply Z.ltb_lt]; lia.
+Ltac andb_f := symmetry; apply andb_false_iff; right; apply Z.ltb_ge; lia.
+Ltac eqb_f := symmetry; apply Z.eqb_neq; lia.
+
+(* the stack after the carry stopped at level e (free, or e = depth: a new level) *)
+Lemma carry_stack c c1 e d' :
+  stack_ok c -> 0 <= e <= depth c -> e < zlen (mn c) -> d' = Z.max (depth c) (e + 1) -> d' < zlen (mn c) ->
+  nthZ (mn c) e <= 0 -> (forall j, 0 <= j < e -> nthZ (mn c) j > 0) ->
+  Z.abs (nthZ (mn c) e) <= ind c1 -> 0 <= ind c1 ->
+  ssorted (slice (buf c1) (Z.abs (nthZ (mn c) e)) (ind c1)) ->
+  firstn (Z.to_nat (Z.abs (nthZ (mn c) e))) (buf c1) = firstn (Z.to_nat (Z.abs (nthZ (mn c) e))) (buf c) ->
+  keys_nonneg (live c1) ->
+  stack_ok (mkCoo (buf c1) (ind c1) (upd (fill_prefix (mn c) e (- ind c1)) (Z.to_nat e) (ind c1)) d').
+Proof.
+  intros [Hd Hz Hch Hi Hk Hfree Hruns] He Hel Hd' Hd'l Hfe Hpos Hle Hi0 Hs Hpre Hk1.
+  set (m' := upd (fill_prefix (mn c) e (- ind c1)) (Z.to_nat e) (ind c1)).
+  assert (N : forall j, nthZ m' j = if j =? e then ind c1
+                                   else if (0 <=? j) && (j <? e) then - ind c1 else nthZ (mn c) j).
+  { intros j. unfold m'. apply nthZ_carry. lia. }
+  assert (Nlt : forall j, 0 <= j < e -> nthZ m' j = - ind c1).
+  { intros j Hj. rewrite N. replace (j =? e) with false by eqb_f.
+    replace ((0 <=? j) && (j <? e)) with true by andb_t. reflexivity. }
+  assert (Ne : nthZ m' e = ind c1) by (rewrite N, Z.eqb_refl; reflexivity).
+  assert (Ngt : forall j, e < j -> nthZ m' j = nthZ (mn c) j).
+  { intros j Hj. rewrite N. replace (j =? e) with false by eqb_f.
+    replace ((0 <=? j) && (j <? e)) with false by andb_f. reflexivity. }
+  assert (Hze : forall j, depth c <= j -> nthZ (mn c) j = 0) by exact Hz.
+  assert (Habove : Z.abs (nthZ (mn c) (e + 1)) <= Z.abs (nthZ (mn c) e)).
+  { destruct (Z_lt_le_dec e (depth c)); [apply Hch; lia|]. rewrite (Hze (e + 1)) by lia. simpl. apply Z.abs_nonneg. }
+  assert (Hfe1 : Z.abs (nthZ (mn c) (e + 1)) = Z.abs (nthZ (mn c) e)).
+  { destruct (Z_lt_le_dec e (depth c)); [apply Hfree; [lia|exact Hfe]|].
+    rewrite (Hze (e + 1)), (Hze e) by lia. reflexivity. }
+  assert (Lm : zlen m' = zlen (mn c)) by (unfold m'; rewrite zlen_upd, zlen_fill_prefix; reflexivity).
+  constructor; simpl; fold m'.
+  - rewrite Lm. lia.
+  - intros j Hj. rewrite Ngt by lia. apply Hz. lia.
+  - intros j Hj. destruct (Z_lt_le_dec (j + 1) e).
+    + rewrite !Nlt by lia. lia.
+    + destruct (Z.eq_dec (j + 1) e) as [E1|E1].
+      * rewrite <- E1 in Ne. rewrite Ne, Nlt by lia. lia.
+      * destruct (Z.eq_dec j e) as [->|E2].
+        -- rewrite Ne, Ngt by lia. lia.
+        -- rewrite !Ngt by lia. apply Hch. lia.
+  - destruct (Z.eq_dec e 0) as [->|E0]; [rewrite Ne; lia|rewrite Nlt by lia; lia].
+  - exact Hk1.
+  - intros j Hj Hnp. destruct (Z_lt_le_dec (j + 1) e).
+    + rewrite !Nlt by lia. reflexivity.
+    + destruct (Z.eq_dec (j + 1) e) as [E1|E1].
+      * rewrite <- E1 in Ne. rewrite Ne, Nlt by lia. lia.
+      * destruct (Z.eq_dec j e) as [->|E2].
+        -- rewrite Ne in *. rewrite Ngt by lia. lia.
+        -- rewrite !Ngt in * by lia. apply Hfree; [lia|exact Hnp].
+  - intros j Hj. unfold run_at. simpl. fold m'. destruct (Z_lt_le_dec (j + 1) e).
+    + rewrite !Nlt by lia. rewrite slice_empty. apply ssorted_nil.
+    + destruct (Z.eq_dec (j + 1) e) as [E1|E1].
+      * rewrite <- E1 in Ne. rewrite Ne, Nlt by lia.
+        replace (Z.abs (- ind c1)) with (Z.abs (ind c1)) by lia. rewrite slice_empty. apply ssorted_nil.
+      * destruct (Z.eq_dec j e) as [->|E2].
+        -- rewrite Ne, Ngt by lia. rewrite Hfe1. replace (Z.abs (ind c1)) with (ind c1) by lia. exact Hs.
+        -- rewrite !Ngt by lia.
+           assert (Z.abs (nthZ (mn c) j) <= Z.abs (nthZ (mn c) e)).
+           { apply (chain_le (mn c) e (depth c)); [intros q Hq; apply Hch; lia|lia]. }
+           rewrite (slice_prefix_eq (buf c1) (buf c) _ _ (Z.abs (nthZ (mn c) e)));
+             [apply (Hruns j); lia|apply Z.abs_nonneg|lia|exact Hpre].
+Qed.
 
 Lemma msd_ok c :
   stack_ok c -> ind c <= cap c -> cnt (mn c) (depth c) + 1 < 2 ^ (zlen (mn c) - 1) ->
+  ssorted (slice (buf c) (Z.abs (nthZ (mn c) 0)) (ind c)) ->
   exists c',
     merge_sum_duplicates c = Ok c' /\ stack_ok c' /\
     cap c' = cap c /\ zlen (mn c') = zlen (mn c) /\ 0 <= ind c' <= ind c /\ Z.abs (nthZ (mn c') 0) = ind c' /\
     (forall k, sumby (live c') k = sumby (live c) k) /\
     cnt (mn c') (depth c') <= cnt (mn c) (depth c) + 1 /\
-    (depth c' = depth c \/ (depth c' = depth c + 1 /\ 2 ^ depth c <= cnt (mn c) (depth c) + 1)).
+    (depth c' = depth c \/ (depth c' = depth c + 1 /\ 2 ^ depth c <= cnt (mn c) (depth c) + 1)) /\
+    (forall e, 0 <= e <= depth c -> (forall j, 0 <= j < e -> nthZ (mn c) j > 0) -> nthZ (mn c) e <= 0 ->
+               ssorted (slice (buf c') (Z.abs (nthZ (mn c) e)) (ind c'))).
 Proof.
-  intros [Hd Hz Hch Hi Hk] Huc Hcnt.
-  destruct (msd_loop_ok (Z.to_nat (depth c)) 0 c) as (c1 & nd & L1 & L2 & L3 & L4 & L5 & L6 & L7 & L8 & L9);
+  intros SO Huc Hcnt Hnew. pose proof SO as [Hd Hz Hch Hi Hk Hfree Hruns].
+  destruct (msd_loop_ok (Z.to_nat (depth c)) 0 c)
+    as (c1 & nd & e & L1 & L2 & L3 & L4 & L5 & L6 & L7 & L8 & L9 & L10 & L11 & L12 & L13 & L14);
     auto; try lia.
   unfold merge_sum_duplicates. rewrite L1. simpl bind.
+  (* the stopping level is the first non-positive entry: unique *)
+  assert (Huniq : forall e', 0 <= e' <= depth c -> (forall j, 0 <= j < e' -> nthZ (mn c) j > 0) ->
+                             nthZ (mn c) e' <= 0 -> nthZ (mn c) e <= 0 -> e' = e).
+  { intros e' H1 H2 H3 H4. destruct (Z_lt_le_dec e' e); [specialize (L11 e' ltac:(lia)); lia|].
+    destruct (Z_lt_le_dec e e'); [specialize (H2 e ltac:(lia)); lia|lia]. }
   destruct nd.
   - (* every level occupied: a new level *)
-    destruct (L8 eq_refl) as [Em Hpos]. rewrite Em, L3.
+    destruct (L8 eq_refl) as [Ee Em]. subst e. rewrite Em, L3.
+    assert (Hpos : forall j, 0 <= j < depth c -> nthZ (mn c) j > 0) by (intros; apply L11; lia).
     assert (Hc : cnt (mn c) (depth c) = 2 ^ depth c - 1) by (apply cnt_all_pos; [lia|exact Hpos]).
     assert (Hroom : depth c + 1 < zlen (mn c)).
     { assert (2 ^ depth c < 2 ^ (zlen (mn c) - 1)) by lia.
       apply Z.pow_lt_mono_r_iff in H; lia. }
+    assert (Hz0 : nthZ (mn c) (depth c) = 0) by (apply Hz; lia).
     rewrite setZ_ok by (rewrite zlen_fill_prefix; lia). simpl bind.
     eexists. split; [reflexivity|].
+    pose proof (carry_stack c c1 (depth c) (depth c + 1) SO) as CS.
+    split; [apply CS; auto; try lia|].
     set (m' := upd (fill_prefix (mn c) (depth c) (- ind c1)) (Z.to_nat (depth c)) (ind c1)).
     assert (N : forall j, nthZ m' j = if j =? depth c then ind c1
                                      else if (0 <=? j) && (j <? depth c) then - ind c1 else nthZ (mn c) j).
     { intros j. unfold m'. apply nthZ_carry. lia. }
-    assert (Lm : zlen m' = zlen (mn c)) by (unfold m'; rewrite zlen_upd, zlen_fill_prefix; reflexivity).
-    split; [constructor; simpl|].
-    + lia.
-    + intros j Hj. rewrite N.
-      replace (j =? depth c) with false by (symmetry; apply Z.eqb_neq; lia).
-      replace ((0 <=? j) && (j <? depth c)) with false
-        by (symmetry; apply andb_false_iff; right; apply Z.ltb_ge; lia).
-      apply Hz. lia.
-    + intros j Hj. rewrite !N.
-      destruct (Z.eq_dec j (depth c)) as [->|Hne].
-      * rewrite Z.eqb_refl.
-        replace (depth c + 1 =? depth c) with false by (symmetry; apply Z.eqb_neq; lia).
-        replace ((0 <=? depth c + 1) && (depth c + 1 <? depth c)) with false
-          by (symmetry; apply andb_false_iff; right; apply Z.ltb_ge; lia).
-        rewrite (Hz (depth c + 1)) by lia. simpl. lia.
-      * replace (j =? depth c) with false by (symmetry; apply Z.eqb_neq; lia).
-        replace ((0 <=? j) && (j <? depth c)) with true
-          by (symmetry; apply andb_true_iff; split; [apply Z.leb_le|apply Z.ltb_lt]; lia).
-        destruct (j + 1 =? depth c) eqn:E1; [lia|].
-        replace ((0 <=? j + 1) && (j + 1 <? depth c)) with true
-          by (symmetry; apply andb_true_iff; split; [apply Z.leb_le|apply Z.ltb_lt; apply Z.eqb_neq in E1]; lia).
-        lia.
-    + rewrite N. destruct (0 =? depth c) eqn:E0; [lia|].
+    simpl. split; [exact L2|]. split; [unfold m'; rewrite zlen_upd, zlen_fill_prefix; reflexivity|]. split; [lia|].
+    split.
+    { rewrite N. destruct (0 =? depth c) eqn:E0; [lia|].
       replace ((0 <=? 0) && (0 <? depth c)) with true
         by (symmetry; apply andb_true_iff; split; [apply Z.leb_le|apply Z.ltb_lt; apply Z.eqb_neq in E0]; lia).
-      lia.
-    + exact L7.
-    + simpl. split; [exact L2|]. split; [exact Lm|]. split; [lia|].
-      split.
-      { rewrite N. destruct (0 =? depth c) eqn:E0; [lia|].
-        replace ((0 <=? 0) && (0 <? depth c)) with true
-          by (symmetry; apply andb_true_iff; split; [apply Z.leb_le|apply Z.ltb_lt; apply Z.eqb_neq in E0]; lia).
-        lia. }
-      split; [exact L6|].
-      split.
-      { pose proof (cnt_newdepth (mn c) (depth c) (ind c1)) as Q. fold m' in Q. lia. }
-      right. split; [reflexivity|]. lia.
-  - (* the carry stopped at the free level i' *)
-    destruct (L9 eq_refl) as (i' & I1 & I2 & I3 & I4 & I5).
+      lia. }
+    split; [exact L6|].
+    split.
+    { pose proof (cnt_newdepth (mn c) (depth c) (ind c1)) as Q. fold m' in Q. lia. }
+    split; [right; split; [reflexivity|lia]|].
+    intros e' H1 H2 H3. rewrite (Huniq e' H1 H2 H3) by lia. exact L13.
+  - (* the carry stopped at the free level e *)
+    destruct (L9 eq_refl) as (I1 & I3 & I5).
     exists c1. split; [reflexivity|].
-    assert (N : forall j, nthZ (mn c1) j = if j =? i' then ind c1
-                                          else if (0 <=? j) && (j <? i') then - ind c1 else nthZ (mn c) j).
+    pose proof (carry_stack c c1 e (depth c) SO) as CS.
+    assert (Ec1 : c1 = mkCoo (buf c1) (ind c1) (upd (fill_prefix (mn c) e (- ind c1)) (Z.to_nat e) (ind c1)) (depth c)).
+    { destruct c1 as [b1 i1 m1 d1]. simpl in *. subst. reflexivity. }
+    split; [rewrite Ec1; apply CS; auto; try lia|].
+    assert (N : forall j, nthZ (mn c1) j = if j =? e then ind c1
+                                          else if (0 <=? j) && (j <? e) then - ind c1 else nthZ (mn c) j).
     { intros j. rewrite I5. apply nthZ_carry. lia. }
-    split; [constructor|].
-    + lia.
-    + rewrite L3. intros j Hj. rewrite N.
-      replace (j =? i') with false by (symmetry; apply Z.eqb_neq; lia).
-      replace ((0 <=? j) && (j <? i')) with false
-        by (symmetry; apply andb_false_iff; right; apply Z.ltb_ge; lia).
-      apply Hz. lia.
-    + rewrite L3. intros j Hj. rewrite !N.
-      destruct (Z.eq_dec j i') as [->|Hne].
-      * rewrite Z.eqb_refl.
-        replace (i' + 1 =? i') with false by (symmetry; apply Z.eqb_neq; lia).
-        replace ((0 <=? i' + 1) && (i' + 1 <? i')) with false
-          by (symmetry; apply andb_false_iff; right; apply Z.ltb_ge; lia).
-        specialize (Hch i' ltac:(lia)). lia.
-      * replace (j =? i') with false by (symmetry; apply Z.eqb_neq; lia).
-        destruct (Z_lt_le_dec j i').
-        -- replace ((0 <=? j) && (j <? i')) with true
-             by (symmetry; apply andb_true_iff; split; [apply Z.leb_le|apply Z.ltb_lt]; lia).
-           destruct (j + 1 =? i') eqn:E1; [lia|].
-           replace ((0 <=? j + 1) && (j + 1 <? i')) with true
-             by (symmetry; apply andb_true_iff; split; [apply Z.leb_le|apply Z.ltb_lt; apply Z.eqb_neq in E1]; lia).
-           lia.
-        -- replace ((0 <=? j) && (j <? i')) with false
-             by (symmetry; apply andb_false_iff; right; apply Z.ltb_ge; lia).
-           replace (j + 1 =? i') with false by (symmetry; apply Z.eqb_neq; lia).
-           replace ((0 <=? j + 1) && (j + 1 <? i')) with false
-             by (symmetry; apply andb_false_iff; right; apply Z.ltb_ge; lia).
-           apply Hch. lia.
-    + rewrite N. destruct (0 =? i') eqn:E0; [lia|].
-      replace ((0 <=? 0) && (0 <? i')) with true
+    split; [exact L2|]. split; [exact L4|]. split; [lia|].
+    split.
+    { rewrite N. destruct (0 =? e) eqn:E0; [lia|].
+      replace ((0 <=? 0) && (0 <? e)) with true
         by (symmetry; apply andb_true_iff; split; [apply Z.leb_le|apply Z.ltb_lt; apply Z.eqb_neq in E0]; lia).
-      lia.
-    + exact L7.
-    + split; [exact L2|]. split; [exact L4|]. split; [lia|].
-      split.
-      { rewrite N. destruct (0 =? i') eqn:E0; [lia|].
-        replace ((0 <=? 0) && (0 <? i')) with true
-          by (symmetry; apply andb_true_iff; split; [apply Z.leb_le|apply Z.ltb_lt; apply Z.eqb_neq in E0]; lia).
-        lia. }
-      split; [exact L6|].
-      split.
-      { rewrite L3, I5. apply cnt_carry; try lia. intros j Hj. apply I2. lia. }
-      left. exact L3.
+      lia. }
+    split; [exact L6|].
+    split.
+    { rewrite L3, I5. apply cnt_carry; try lia. intros j Hj. apply L11. lia. }
+    split; [left; exact L3|].
+    intros e' H1 H2 H3. rewrite (Huniq e' H1 H2 H3) by lia. exact L13.
 Qed.
 
 (* ------------------------------------------------------------------ coo_sum_duplicates *)
@@ -519,18 +630,28 @@ Lemma csd_ok c :
   stack_ok c -> ind c < cap c -> cnt (mn c) (depth c) + 1 < 2 ^ (zlen (mn c) - 1) ->
   exists c', coo_sum_duplicates c = Ok c' /\ op_post c c'.
 Proof.
-  intros [Hd Hz Hch Hi Hk] Huc Hcnt.
+  intros [Hd Hz Hch Hi Hk Hfree Hruns] Huc Hcnt.
   set (lo := Z.abs (nthZ (mn c) 0)).
   assert (Hlo0 : 0 <= lo) by apply Z.abs_nonneg.
   destruct (sd_phase c lo) as (cm & S1 & S2 & S3 & S4 & S5 & S6); try lia; try reflexivity.
   assert (Hseg : keys_nonneg (slice (buf c) lo (ind c))) by (apply live_slice_nonneg; [lia|exact Hk]).
+  assert (LP : zlen (firstn (Z.to_nat lo) (buf c)) = lo) by (apply zlen_firstn; unfold cap in *; lia).
+  assert (Hpre : firstn (Z.to_nat lo) (buf cm) = firstn (Z.to_nat lo) (buf c)).
+  { rewrite <- (firstn_firstn_le (Z.to_nat lo) (Z.to_nat (ind cm)) (buf cm)) by lia.
+    fold (live cm). rewrite S6. apply firstnZ_app. symmetry; exact LP. }
+  assert (Hrun : slice (buf cm) lo (ind cm) = rlc (sort_by_key (slice (buf c) lo (ind c)))).
+  { rewrite slice_skipn_firstn by lia. fold (live cm). rewrite S6. apply skipnZ_app. symmetry; exact LP. }
   assert (SO : stack_ok cm).
   { constructor; rewrite ?S2, ?S3; auto; try (fold lo; lia).
-    rewrite S6. apply keys_nonneg_app. split; [apply live_prefix_nonneg; [lia|exact Hk]|].
-    apply keys_nonneg_rlc. eapply keys_nonneg_perm; [apply sort_perm|exact Hseg]. }
-  destruct (msd_ok cm SO) as (c' & M1 & M2 & M3 & M4 & M5 & M6 & M7 & M8 & M9).
+    - rewrite S6. apply keys_nonneg_app. split; [apply live_prefix_nonneg; [lia|exact Hk]|].
+      apply keys_nonneg_rlc. eapply keys_nonneg_perm; [apply sort_perm|exact Hseg].
+    - intros j Hj. unfold run_at. rewrite S2.
+      assert (Z.abs (nthZ (mn c) j) <= lo) by (apply (chain_le (mn c) 0 (depth c)); [exact Hch|lia]).
+      rewrite (slice_prefix_eq (buf cm) (buf c) _ _ lo); [apply Hruns; lia|apply Z.abs_nonneg|lia|exact Hpre]. }
+  destruct (msd_ok cm SO) as (c' & M1 & M2 & M3 & M4 & M5 & M6 & M7 & M8 & M9 & _).
   { rewrite S4. lia. }
   { rewrite S2, S3. exact Hcnt. }
+  { rewrite S2. fold lo. rewrite Hrun. apply rlc_sorted, sort_wsorted. }
   exists c'. split; [rewrite S1; exact M1|].
   rewrite S2, S3, S4 in *.
   split; [exact M2|]. split; [exact M3|]. split; [exact M4|]. split; [lia|]. split; [exact M6|].
@@ -634,11 +755,88 @@ Qed.
 Lemma filter_length_le' {A} (f : A -> bool) l : (length (filter f l) <= length l)%nat.
 Proof. induction l as [|x l IH]; simpl; [lia|]. destruct (f x); simpl; lia. Qed.
 
+(* list formulation of so_free / so_runs, used to get through merge_all's compaction *)
+Definition start_of (X : list Z) (t : Z) : Z := match X with [] => Z.abs t | y :: _ => Z.abs y end.
+Fixpoint runs_list (b : list entry) (X : list Z) (t : Z) : Prop :=
+  match X with
+  | [] => True
+  | x :: X' => (x <= 0 -> Z.abs x = start_of X' t) /\ ssorted (slice b (start_of X' t) (Z.abs x)) /\ runs_list b X' t
+  end.
+
+Lemma start_of_seg m X i q t : seg m i q X -> nthZ m q = t -> start_of X t = Z.abs (nthZ m i).
+Proof.
+  intros Hs Ht. destruct X as [|y X']; simpl.
+  - apply seg_nil_eq in Hs. subst. reflexivity.
+  - apply (seg_cons S_ma_min_i) in Hs. destruct Hs as [G _]. apply getZ_Ok_nthZ in G. rewrite G. reflexivity.
+Qed.
+
+Lemma runs_list_of_pointwise b m t : forall X i q, seg m i q X -> nthZ m q = t ->
+  (forall j, i <= j < q -> nthZ m j <= 0 -> Z.abs (nthZ m (j + 1)) = Z.abs (nthZ m j)) ->
+  (forall j, i <= j < q -> ssorted (slice b (Z.abs (nthZ m (j + 1))) (Z.abs (nthZ m j)))) ->
+  runs_list b X t.
+Proof.
+  induction X as [|x X' IH]; intros i q Hs Ht Hf Hr; simpl; [exact I|].
+  pose proof Hs as Hs0. apply (seg_cons S_ma_min_i) in Hs. destruct Hs as [G Hs'].
+  apply getZ_Ok_nthZ in G.
+  assert (Hiq : i < q). { destruct Hs0 as (_ & H & _). zl. pose proof (zlen_nonneg X'). lia. }
+  rewrite (start_of_seg m X' (i + 1) q t Hs' Ht). rewrite <- G.
+  split; [intros Hx; symmetry; apply Hf; [lia|exact Hx]|].
+  split; [apply Hr; lia|].
+  apply (IH (i + 1) q Hs' Ht); intros j Hj; [apply Hf|apply Hr]; lia.
+Qed.
+
+Lemma pointwise_of_runs_list b m t : forall X i q, seg m i q X -> nthZ m q = t -> runs_list b X t ->
+  forall j, i <= j < q ->
+    (nthZ m j <= 0 -> Z.abs (nthZ m (j + 1)) = Z.abs (nthZ m j)) /\
+    ssorted (slice b (Z.abs (nthZ m (j + 1))) (Z.abs (nthZ m j))).
+Proof.
+  induction X as [|x X' IH]; intros i q Hs Ht HR j Hj.
+  - apply seg_nil_eq in Hs. lia.
+  - apply (seg_cons S_ma_min_i) in Hs. destruct Hs as [G Hs'].
+    apply getZ_Ok_nthZ in G. simpl in HR. destruct HR as (R1 & R2 & R3).
+    rewrite (start_of_seg m X' (i + 1) q t Hs' Ht) in R1, R2.
+    destruct (Z.eq_dec j i) as [->|Hne].
+    + rewrite G. split; [intros Hx; symmetry; apply R1, Hx|exact R2].
+    + apply (IH (i + 1) q Hs' Ht R3). lia.
+Qed.
+
+Lemma start_of_zeros k : start_of (repeat 0 k) 0 = 0.
+Proof. destruct k; reflexivity. Qed.
+
+Lemma runs_list_zeros b k : runs_list b (repeat 0 k) 0.
+Proof.
+  induction k as [|k IH]; simpl; [exact I|]. rewrite start_of_zeros. simpl.
+  split; [reflexivity|]. split; [rewrite slice_empty; apply ssorted_nil|exact IH].
+Qed.
+
+Lemma start_filter b X k : runs_list b X 0 -> start_of (filter gt0 X ++ repeat 0 k) 0 = start_of X 0.
+Proof.
+  induction X as [|x X' IH]; intros HR; simpl.
+  - apply start_of_zeros.
+  - simpl in HR. destruct HR as (R1 & _ & R3). unfold gt0 at 1. destruct (x >? 0) eqn:E.
+    + reflexivity.
+    + rewrite Z.gtb_ltb in E. apply Z.ltb_ge in E. rewrite (IH R3). symmetry. apply R1, E.
+Qed.
+
+Lemma runs_filter b X k : runs_list b X 0 -> runs_list b (filter gt0 X ++ repeat 0 k) 0.
+Proof.
+  induction X as [|x X' IH]; intros HR; simpl.
+  - apply runs_list_zeros.
+  - simpl in HR. destruct HR as (R1 & R2 & R3). unfold gt0 at 1. destruct (x >? 0) eqn:E.
+    + simpl. rewrite (start_filter b X' k R3). apply Z.gtb_lt in E.
+      split; [intros; lia|]. split; [exact R2|apply IH, R3].
+    + apply IH, R3.
+Qed.
+
+Lemma slice0_firstn {A} (b : list A) up : slice b 0 up = firstn (Z.to_nat up) b.
+Proof. unfold slice. rewrite Z.sub_0_r. reflexivity. Qed.
+
 Lemma ma_ok c :
   stack_ok c -> ind c <= cap c -> cnt (mn c) (depth c) + 1 < 2 ^ (zlen (mn c) - 1) ->
-  exists c', merge_all_sum_duplicates c = Ok c' /\ op_post c c'.
+  Z.abs (nthZ (mn c) 0) = ind c ->
+  exists c', merge_all_sum_duplicates c = Ok c' /\ op_post c c' /\ ssorted (live c').
 Proof.
-  intros [Hd Hz Hch Hi Hk] Huc Hcnt.
+  intros [Hd Hz Hch Hi Hk Hfree Hruns] Huc Hcnt Htail.
   set (d := depth c) in *. set (m := mn c) in *.
   set (X := slice m 0 d).
   assert (SX : seg m 0 d X) by (apply seg_slice; lia).
@@ -675,6 +873,18 @@ Proof.
   assert (SXs : StronglySorted absge X).
   { apply adjacent_sorted. intros j Hj0 Hj. rewrite EX, !nthZ_firstn by lia. apply Hch. lia. }
   assert (Sp : StronglySorted absge pos) by (apply filter_sorted, SXs).
+  (* runs and free levels of the compacted stack, through the list formulation *)
+  assert (RL : runs_list (buf c) X 0).
+  { apply (runs_list_of_pointwise (buf c) m 0 X 0 d SX); [apply Hz; lia| |].
+    - intros j Hj. apply Hfree. lia.
+    - intros j Hj. apply (Hruns j). lia. }
+  assert (RL2 : runs_list (buf c) new_min 0) by (apply runs_filter, RL).
+  assert (S2 : seg m2 0 d new_min).
+  { split; [lia|]. split; [lia|]. rewrite slice0_firstn, E2. apply firstnZ_app. symmetry; exact Ln. }
+  pose proof (pointwise_of_runs_list (buf c) m2 0 new_min 0 d S2 (N3 d ltac:(lia)) RL2) as PW.
+  assert (H0 : Z.abs (nthZ m2 0) = Z.abs (nthZ m 0)).
+  { rewrite <- (start_of_seg m2 new_min 0 d 0 S2 (N3 d ltac:(lia))).
+    rewrite <- (start_of_seg m X 0 d 0 SX (Hz d ltac:(lia))). apply (start_filter (buf c)), RL. }
   assert (SO : stack_ok (set_mn c m2)).
   { constructor; unfold set_mn; simpl; fold d.
     - lia.
@@ -685,16 +895,10 @@ Proof.
       + assert (nthZ m2 (j + 1) = 0) as ->.
         { destruct (Z_lt_le_dec (j + 1) d); [apply N2; lia|apply N3; lia]. }
         simpl. apply Z.abs_nonneg.
-    - destruct (Z_lt_le_dec 0 (zlen pos)).
-      + rewrite N1 by lia.
-        assert (Hin : In (nthZ pos 0) pos) by (apply nthZ_in; lia).
-        apply PX in Hin. destruct Hin as [_ Hin].
-        pose proof (sorted_hd_bound X _ SXs Hin) as Hb.
-        rewrite EX, nthZ_firstn in Hb by lia. fold m in Hi. lia.
-      + assert (nthZ m2 0 = 0) as ->.
-        { destruct (Z_lt_le_dec 0 d); [apply N2; lia|apply N3; lia]. }
-        simpl. pose proof (Z.abs_nonneg (nthZ m 0)). fold m in Hi. lia.
-    - exact Hk. }
+    - rewrite H0. fold m in Hi. exact Hi.
+    - exact Hk.
+    - intros j Hj. apply (PW j). lia.
+    - intros j Hj. unfold run_at; simpl. apply (PW j). lia. }
   assert (C2 : cnt m2 d <= cnt m d).
   { unfold cnt.
     replace (Z.to_nat d) with (Z.to_nat (zlen pos) + Z.to_nat (d - zlen pos))%nat at 1 by lia.
@@ -707,14 +911,22 @@ Proof.
     rewrite (npos_filter m X 0 d SX) in Q. fold pos in Q.
     rewrite Z2Nat.id by lia. replace (0 + zlen pos) with (zlen pos) by lia.
     change (2 ^ 0) with 1 in *. lia. }
-  destruct (msd_ok (set_mn c m2) SO) as (c' & M1 & M2 & M3 & M4 & M5 & M6 & M7 & M8 & M9).
+  destruct (msd_ok (set_mn c m2) SO) as (c' & M1 & M2 & M3 & M4 & M5 & M6 & M7 & M8 & M9 & M10).
   { exact Huc. }
   { unfold set_mn; simpl. fold d. rewrite E3. fold m in Hcnt. lia. }
+  { unfold set_mn; simpl. rewrite H0. fold m in Htail. rewrite Htail, slice_empty. apply ssorted_nil. }
   exists c'. split; [exact M1|].
+  assert (Hsorted : ssorted (live c')).
+  { specialize (M10 (zlen pos)). unfold set_mn in M10; simpl in M10. fold d in M10.
+    assert (Hp0 : nthZ m2 (zlen pos) = 0).
+    { destruct (Z_lt_le_dec (zlen pos) d); [apply N2; lia|apply N3; lia]. }
+    rewrite Hp0 in M10. simpl in M10. rewrite slice0_firstn in M10. apply M10; try lia.
+    intros j Hj. rewrite N1 by lia. apply PX, nthZ_in; lia. }
+  split; [|exact Hsorted].
   unfold set_mn in *; simpl in *. unfold d, m in *.
   split; [exact M2|]. split; [exact M3|]. split; [rewrite M4; exact E3|]. split; [exact M5|].
   split; [exact M6|]. split; [exact M7|]. split; [lia|].
-  destruct M9 as [M9|[M9 M10]]; [left; exact M9|right; split; [exact M9|lia]].
+  destruct M9 as [M9|[M9 M9']]; [left; exact M9|right; split; [exact M9|lia]].
 Qed.
 
 (* ------------------------------------------------------------------ the invariant with its level-counter budget *)
@@ -764,19 +976,27 @@ Lemma grow_inv limit c G : Inv c G -> ind c <= cap c ->
   zlen (mn c) <= zlen (mn (coo_increase_mem limit c)) /\
   live (coo_increase_mem limit c) = live c.
 Proof.
-  intros ([Hd Hz Hch Hi Hk] & C & D) Hic.
+  intros ([Hd Hz Hch Hi Hk Hfree Hruns] & C & D) Hic.
   assert (E : forall j, nthZ (mn (coo_increase_mem limit c)) j = nthZ (mn c) j)
     by (intros; apply nthZ_extend0).
   assert (L : live (coo_increase_mem limit c) = live c).
   { unfold live, coo_increase_mem, extend; simpl. rewrite firstn_app.
     replace (Z.to_nat (ind c) - length (buf c))%nat with 0%nat by (unfold cap, zlen in Hic; lia).
     simpl. apply app_nil_r. }
+  assert (Pre : firstn (Z.to_nat (cap c)) (buf (coo_increase_mem limit c)) = firstn (Z.to_nat (cap c)) (buf c)).
+  { unfold coo_increase_mem, extend; simpl. unfold cap, zlen. rewrite Nat2Z.id.
+    rewrite firstn_app, Nat.sub_diag. simpl. rewrite app_nil_r. reflexivity. }
   split; [split; [constructor|]|].
   - unfold coo_increase_mem; simpl. rewrite zlen_extend. lia.
   - intros j Hj. rewrite E. apply Hz. exact Hj.
   - intros j Hj. rewrite !E. apply Hch. exact Hj.
   - rewrite E. exact Hi.
   - rewrite L. exact Hk.
+  - intros j Hj. rewrite !E. apply Hfree. exact Hj.
+  - intros j Hj. unfold run_at. rewrite !E.
+    assert (Z.abs (nthZ (mn c) j) <= Z.abs (nthZ (mn c) 0)).
+    { apply (chain_le (mn c) 0 (depth c)); [exact Hch|simpl in Hj; lia]. }
+    rewrite (slice_prefix_eq _ (buf c) _ _ (cap c)); [apply Hruns; exact Hj|apply Z.abs_nonneg|lia|exact Pre].
   - split; [|exact D]. unfold cnt in *. simpl depth.
     rewrite (cnt_range_ext _ (mn c)); [exact C|]. intros; apply E.
   - split; [reflexivity|]. split; [unfold cap, coo_increase_mem; simpl; apply zlen_extend|].
@@ -807,7 +1027,7 @@ Proof.
   assert (Hm1 : 1 <= zlen (mn c1)) by (destruct S1 as [[? ?] _ _ _ _]; lia).
   rewrite (getZ_nthZ _ (mn c1) 0) by lia. cbn [bind]. rewrite Q4, Q1.
   destruct (cap c - ind c1 <=? limit) eqn:T.
-  - destruct (ma_ok c1) as (c2 & E2 & P2); [exact S1|lia|apply (Inv_room c1 (G + 1) I1); rewrite Q2; lia|].
+  - destruct (ma_ok c1) as (c2 & E2 & P2 & _); [exact S1|lia|apply (Inv_room c1 (G + 1) I1); rewrite Q2; lia|exact Q4|].
     pose proof (op_step c1 c2 (G + 1) I1 P2) as I2. replace (G + 1 + 1) with (G + 2) in I2 by lia.
     destruct P2 as (S2 & R1 & R2 & R3 & R4 & R5 & _).
     rewrite E2. cbn [bind].
@@ -849,14 +1069,17 @@ Lemma coo_append_ok limit c G ev :
     zlen (mn c) <= zlen (mn c') /\ (forall k, sumby (live c') k = sumby (live c) k + sumby [ev] k).
 Proof.
   intros Hl HI Hic Hcap Hev HG.
-  destruct HI as ([Hd Hz Hch Hi Hk] & C & D).
+  destruct HI as ([Hd Hz Hch Hi Hk Hfree Hruns] & C & D).
   pose proof (Z.abs_nonneg (nthZ (mn c) 0)) as Habs.
   unfold coo_append. rewrite setZ_okA by (unfold cap in *; lia). cbn [bind].
   set (c1 := {| buf := upd (buf c) (Z.to_nat (ind c)) ev; ind := ind c + 1; mn := mn c; depth := depth c |}).
   assert (L1 : live c1 = live c ++ [ev]) by (apply live_append; lia).
   assert (I1 : Inv c1 G).
   { split; [constructor; simpl; auto; try lia|split; [exact C|exact D]].
-    rewrite L1. apply keys_nonneg_app. split; [exact Hk|]. constructor; [exact Hev|constructor]. }
+    - rewrite L1. apply keys_nonneg_app. split; [exact Hk|]. constructor; [exact Hev|constructor].
+    - intros j Hj. unfold run_at; simpl.
+      assert (Z.abs (nthZ (mn c) j) <= Z.abs (nthZ (mn c) 0)) by (apply (chain_le (mn c) 0 (depth c)); [exact Hch|lia]).
+      rewrite (slice_prefix_eq _ (buf c) _ _ (ind c)); [apply Hruns; exact Hj|apply Z.abs_nonneg|lia|apply firstn_upd]. }
   assert (K1 : cap c1 = cap c) by (unfold cap, c1; simpl; apply zlen_upd).
   assert (S1 : forall k, sumby (live c1) k = sumby (live c) k + sumby [ev] k)
     by (intros k; rewrite L1; apply sumby_app).
@@ -914,27 +1137,30 @@ Proof.
   - intros j Hj. lia.
   - rewrite nthZ_repeat0. simpl. lia.
   - constructor.
+  - intros j Hj. lia.
+  - intros j Hj. lia.
 Qed.
 
 Lemma finish_ok c G :
   Inv c G -> ind c <= cap c - 1 -> G + 2 < 2 ^ (zlen (mn c) - 1) ->
-  exists c', finish c = Ok c' /\ stack_ok c' /\ (forall k, sumby (live c') k = sumby (live c) k).
+  exists c', finish c = Ok c' /\ stack_ok c' /\ (forall k, sumby (live c') k = sumby (live c) k) /\ ssorted (live c').
 Proof.
   intros HI Hic HG.
   destruct (csd_ok c) as (c1 & E1 & P1); [apply HI|lia|apply (Inv_room c G HI); lia|].
   pose proof (op_step c c1 G HI P1) as I1.
   destruct P1 as (S1 & Q1 & Q2 & Q3 & Q4 & Q5 & _).
-  destruct (ma_ok c1) as (c2 & E2 & P2); [exact S1|lia|apply (Inv_room c1 (G + 1) I1); rewrite Q2; lia|].
+  destruct (ma_ok c1) as (c2 & E2 & P2 & Hs); [exact S1|lia|apply (Inv_room c1 (G + 1) I1); rewrite Q2; lia|exact Q4|].
   destruct P2 as (S2 & R1 & R2 & R3 & R4 & R5 & _).
   exists c2. unfold finish. rewrite E1. cbn [bind]. split; [exact E2|]. split; [exact S2|].
-  intros k. rewrite R5, Q5. reflexivity.
+  split; [|exact Hs]. intros k. rewrite R5, Q5. reflexivity.
 Qed.
 
-(* no fault and exact sum by key, for every threshold >= 1, every capacity >= 20 and every event list that the
-   min stack can count *)
+(* no fault, exact sum by key and strictly increasing live keys, for every threshold >= 1, every capacity >= 20 and
+   every event list that the min stack can count *)
 Theorem run_total limit n mlen evs :
   1 <= limit -> 20 <= n -> keys_nonneg evs -> 2 * zlen evs + 2 < 2 ^ (mlen - 1) ->
-  exists s, run limit n mlen evs = Ok s /\ (forall k, denote s k = sumby evs k) /\ keys_nonneg (live s).
+  exists s, run limit n mlen evs = Ok s /\ (forall k, denote s k = sumby evs k) /\
+            StronglySorted Z.lt (map e_key (live s)) /\ keys_nonneg (live s).
 Proof.
   intros Hl Hn Hk HG.
   assert (Hm : 1 <= mlen).
@@ -944,9 +1170,8 @@ Proof.
   assert (C0 : cap (init n mlen) = n) by (unfold cap; simpl; zl; lia).
   destruct (appends_ok limit evs (init n mlen) 0) as (c & E & I & J & C & M & U); auto;
     try (rewrite ?C0, ?Z0; simpl ind; lia).
-  destruct (finish_ok c (0 + 2 * zlen evs)) as (s & Ef & Sf & Uf); [exact I|lia| |].
+  destruct (finish_ok c (0 + 2 * zlen evs)) as (s & Ef & Sf & Uf & Ss); [exact I|lia| |].
   { pose proof (pow2_mono (mlen - 1) (zlen (mn c) - 1) ltac:(lia)). lia. }
-  exists s. unfold run. rewrite E. cbn [bind]. split; [exact Ef|]. split.
-  - intros k. unfold denote. rewrite Uf, U. simpl. lia.
-  - apply Sf.
+  exists s. unfold run. rewrite E. cbn [bind]. split; [exact Ef|]. split; [|split; [exact Ss|apply Sf]].
+  intros k. unfold denote. rewrite Uf, U. simpl. lia.
 Qed.
